@@ -1,5 +1,63 @@
-import GoRedisModel.Model.Show
-/-! placeholder until the theorems of C07 are written -/
+import GoRedisModel.Proofs.Loop
+/-! # C07 — no client can crash the server or disturb other clients
+
+In the model a Go run-time panic inside the connection goroutine is the event `crash`: it is caught by the
+goroutine's barrier, the connection is unregistered and closed, nothing else is touched.  Whether the real
+`receive` has that barrier is checked on every run (regenerated fact `Generated/Facts.lean`, and the tie's
+oracle: no panic escapes the hook). -/
 namespace GoRedis
-theorem C07_placeholder : True := trivial
+
+/-- **Whatever one connection sends** (any byte stream) **and whatever the handler returns** (any script,
+including nil messages, nil arrays, nil elements), the connection's trace begins with its registration and
+ends with its removal from the registry and the closing of its socket: every way out of the loop — end of
+stream, protocol error, QUIT, panic — runs the same two deferred releases. -/
+theorem C07_connection_always_released (pf : FloatOracle) (srv : SrvSt) (requirePass : Bool) (input : Bytes) (script : List HRes) :
+    ∃ body, serve pf srv requirePass input script = [Ev.register] ++ body ++ [.deregister, .close] :=
+  ⟨_, rfl⟩
+
+/-- A request that panics writes nothing, ends only its own connection, and leaves the server-wide state
+alone: the loop has no successor state for it. -/
+theorem C07_panic_is_contained (pf : FloatOracle) (srv : SrvSt) (conn : ConnSt) (m : Msg) (script : List HRes)
+    (hc : crashedIn (reqStep pf srv conn m script).evs = true) :
+    writesOf (reqStep pf srv conn m script).evs = [] ∧ (reqStep pf srv conn m script).next = none :=
+  reqStep_crash pf srv conn m script hc
+
+/-- The server-wide state a request can change is the configuration, and only through the connection's
+own CONFIG SET: a user command (one answered through the application's handler) leaves it untouched. -/
+theorem C07_user_commands_leave_server_state (pf : FloatOracle) (srv : SrvSt) (conn : ConnSt) (cmd : Bytes) (args : List Msg)
+    (p : Prog Out) (h : execUser pf srv conn cmd args = some p) (hs : upper cmd ∉ systemNames) :
+    executeCommand pf srv conn cmd args = p.bind (fun o => .ret (o, conn, srv)) ∨ srv.hasHandler = false := by
+  by_cases hh : srv.hasHandler = true
+  · left
+    simp [systemNames] at hs
+    simp [executeCommand, hh, execSystem, hs, h]
+  · right; simpa using hh
+
+/-! ## The inputs that used to kill the process, evaluated on the repaired model -/
+
+def nf : FloatOracle := fun _ => none
+
+/-- `*0` (empty command array): an error reply, and the next request is served -/
+example : writesOf (serve nf {} false b!"*0\r\n*1\r\n$4\r\nPING\r\n" []) =
+    [enc (.line .err errEmptyCommand.text), b!"+PONG\r\n"] := by decide +kernel
+
+/-- a null command name -/
+example : (writesOf (serve nf {} false b!"*1\r\n$-1\r\n*1\r\n$4\r\nPING\r\n" [])).length = 2 := by decide +kernel
+
+/-- `GETRANGE k 0 3` on a 3-byte value (slice bounds out of range before the repair) -/
+example : writesOf (serve nf {} false b!"*4\r\n$8\r\nGETRANGE\r\n$1\r\nk\r\n$1\r\n0\r\n$1\r\n3\r\n"
+    [{ msg := .bulk (some b!"abc") }]) = [b!"$3\r\nabc\r\n"] := by decide +kernel
+
+/-- GETRANGE on an empty value, and with start after end -/
+example : writesOf (serve nf {} false b!"*4\r\n$8\r\nGETRANGE\r\n$1\r\nk\r\n$1\r\n0\r\n$2\r\n-1\r\n"
+    [{ msg := .bulk (some []) }]) = [b!"$0\r\n\r\n"] := by decide +kernel
+example : writesOf (serve nf {} false b!"*4\r\n$8\r\nGETRANGE\r\n$1\r\nk\r\n$1\r\n2\r\n$1\r\n1\r\n"
+    [{ msg := .bulk (some b!"abc") }]) = [b!"$0\r\n\r\n"] := by decide +kernel
+
+/-- a handler that returns nothing at all to a composite command: the connection is closed (a recovered
+panic), nothing is written, the registry entry is removed -/
+example : serve nf {} false b!"*2\r\n$4\r\nINCR\r\n$1\r\nk\r\n" [{}] =
+    [.register, .rootStart, .spanStart b!"parse", .spanFinish, .spanStart b!"INCR", .hcall (.get b!"k") { authorized := true },
+     .spanFinish, .crash, .deregister, .close] := by decide +kernel
+
 end GoRedis
